@@ -55,6 +55,7 @@ type Contract struct {
 	Uses     []string // lemma names made available as axioms
 	Opts     map[string]string
 	Used     bool
+	Aspect   int // > 0: an aspect contract (verified, never applied at call sites)
 	// AtCall: obligations at every call of the named callee inside this function, stated over
 	// the callee's own parameter names
 	AtCall map[string][]*Clause
@@ -120,6 +121,7 @@ type ghostQual struct {
 }
 
 type SpecSet struct {
+	Aspects        []*Contract // verified-only additional contracts
 	GhostQualified []ghostQual
 	GhostDeclPkg   map[string]map[string]string // type key -> field -> package whose imports resolve the field's type
 	Contracts map[string]map[string]*Contract // pkgpath -> key -> contract
@@ -167,7 +169,7 @@ func extractLines(path string) ([]rawLine, string, error) {
 	return out, pkgName, nil
 }
 
-var declKeywords = []string{"func", "spec", "lemma", "axiom", "census", "guard", "ghost", "package", "trusted"}
+var declKeywords = []string{"func", "spec", "lemma", "axiom", "census", "guard", "ghost", "package", "trusted", "aspect"}
 var clauseKeywords = []string{"allocbound", "atstore", "atcall", "requires", "ensures", "modifies", "invariant", "decreases", "loop", "safe", "trusted", "inline", "for", "nooverflow", "mode", "uses", "induction", "pattern", "assert", "opt"}
 
 func firstWord(s string) (string, string) {
@@ -231,6 +233,15 @@ func (ss *SpecSet) LoadContractFile(path, pkgPath string) error {
 	}
 	for _, d := range decls {
 		w, rest := firstWord(d.head.text)
+		// aspect func ...: an additional contract of a function that is verified against its body but
+		// never used at call sites (callers see the function's primary contract)
+		aspect := false
+		if w == "aspect" {
+			aspect = true
+			d.head.text = strings.TrimSpace(strings.TrimPrefix(strings.TrimSpace(d.head.text), "aspect"))
+			w, rest = firstWord(d.head.text)
+			rest = strings.TrimSpace(rest)
+		}
 		trusted := false
 		if w == "trusted" {
 			trusted = true
@@ -269,6 +280,14 @@ func (ss *SpecSet) LoadContractFile(path, pkgPath string) error {
 				return err
 			}
 			c.Trusted = c.Trusted || trusted
+			if aspect {
+				if c.Trusted {
+					return fmt.Errorf("%s:%d: an aspect contract cannot be trusted", path, d.head.line)
+				}
+				c.Aspect = len(ss.Aspects) + 1
+				ss.Aspects = append(ss.Aspects, c)
+				continue
+			}
 			if ss.Contracts[pkgPath] == nil {
 				ss.Contracts[pkgPath] = map[string]*Contract{}
 			}
